@@ -22,7 +22,7 @@ CaseResult md_case(const RunCtx &ctx, TapeReader &t, unsigned size_hint) {
     SplitMix pr(t.bits(64));
     if (ctx.want_desc) {
         std::ostringstream d;
-        d << "MultidimensionalPGMIndex<" << (int) D << "," << (sizeof(T) == 4 ? "uint32_t" : "uint64_t") << ",16> (points given as " << (sizeof(S) == 4 ? "uint32_t" : "uint64_t") << " tuples) over " << n << " points, coordinate " << bad << " (bit width "
+        d << "MultidimensionalPGMIndex<" << (int) D << "," << (sizeof(T) == 4 ? "uint32_t" : "uint64_t") << ",16> (points given as uint" << sizeof(S) * 8 << "_t tuples) over " << n << " points, coordinate " << bad << " (bit width "
           << 64 - __builtin_clzll(bad) << " >= FieldBits " << field_bits << ") at point " << at << " dimension " << dim << "\n";
         res.desc = d.str();
     }
@@ -39,7 +39,8 @@ CaseResult md_case(const RunCtx &ctx, TapeReader &t, unsigned size_hint) {
     std::string what;
     Thrown th = thrown_by([&] { pgm::MultidimensionalPGMIndex<D, T, 16> x(pts.begin(), pts.end()); }, what);
     res.label("coordinate_too_wide");
-    if (!std::is_same_v<S, T>) res.label("coordinates_given_in_a_wider_type");
+    if (sizeof(S) > sizeof(T)) res.label("coordinates_given_in_a_wider_type");
+    if (sizeof(S) < sizeof(T)) res.label("coordinates_given_in_a_narrower_type");
     if (th == Thrown::Nothing) res.fail("a coordinate of bit width " + std::to_string(64 - __builtin_clzll(bad)) + " (FieldBits " + std::to_string(field_bits) + ") at point " +
                                         std::to_string(at) + " dimension " + std::to_string(dim) + " was accepted");
     res.nontrivial = n >= 3;
@@ -96,7 +97,13 @@ CaseResult builder_case(const RunCtx &ctx, TapeReader &t, unsigned size_hint) {
 }
 
 CaseResult reject_misc(const RunCtx &ctx, TapeReader &t, unsigned sh) {
-    switch (t.below(13)) {
+    switch (t.below(17)) {
+        // coordinates handed over in a NARROWER type than T whose width still reaches FieldBits: the top bit of the element type makes the
+        // value too wide for the encoder although "the type fits"
+        case 13: return md_case<2, uint64_t, std::tuple<uint32_t, uint32_t>, uint32_t>(ctx, t, sh);
+        case 14: return md_case<4, uint64_t, std::tuple<uint16_t, uint16_t, uint16_t, uint16_t>, uint16_t>(ctx, t, sh);
+        case 15: return md_case<2, uint32_t, std::tuple<uint16_t, uint16_t>, uint16_t>(ctx, t, sh);
+        case 16: return md_case<3, uint64_t, std::tuple<uint32_t, uint32_t, uint32_t>, uint32_t>(ctx, t, sh);
         case 10: return md_case<2, uint32_t, std::tuple<uint64_t, uint64_t>, uint64_t>(ctx, t, sh);
         case 11: return md_case<3, uint32_t, std::tuple<uint64_t, uint64_t, uint64_t>, uint64_t>(ctx, t, sh);
         case 12: return md_case<2, uint32_t, std::pair<uint64_t, uint64_t>, uint64_t>(ctx, t, sh);
